@@ -100,11 +100,52 @@ Theorem C13_listing_filtered :
 Proof. exact @re_step_listing_filtered_run. Qed.
 Print Assumptions C13_listing_filtered.
 
-(* the filter removes nothing but non-matching non-directories from a listing *)
+(* the filter removes nothing but non-matching non-directories from a listing.  RegexpFile.Readdir(n)
+   may read several pages of the inner directory (it re-reads while a page of n > 0 entries was
+   filtered down to nothing: Model/Regexp.v re_readdir), so the statement is about the concatenation
+   of the pages read:  pages_read inner h n s pages s'  :=  [pages] are the consecutive nil-error
+   answers of the inner Readdir(n) on h, leading from state s to state s'.  A nil-error listing [out] of
+   a RegexpFile handle is the filter applied to those pages: every entry that is a directory or
+   matches stays (and, by (a)/(b), nothing else does) *)
 Theorem C13_listing_keeps_visible :
+  forall (St : Type) (inner : St -> op -> St * res) (m : str -> bool) s w h n s' w' out,
+  In h w ->
+  re_step inner m (s, w) (HReaddir h n) = ((s', w'), RInfos out None) ->
+  w' = w /\
+  exists pages, pages_read inner h n s pages s' /\ out = filter_infos m (concat pages) /\
+    forall fi, In fi (concat pages) -> (fi_dir fi = true \/ m (fi_name fi) = true) -> In fi out.
+Proof. exact @re_step_listing_pages. Qed.
+Print Assumptions C13_listing_keeps_visible.
+
+(* the filter itself, on one list (the statement above before Readdir became a loop) *)
+Theorem C13_filter_keeps_visible :
   forall (m : str -> bool) l fi, In fi l -> (fi_dir fi = true \/ m (fi_name fi) = true) -> In fi (filter_infos m l).
 Proof. exact filter_infos_keeps. Qed.
-Print Assumptions C13_listing_keeps_visible.
+Print Assumptions C13_filter_keeps_visible.
+
+(* Readdirnames of a RegexpFile handle is the names of its Readdir (same state, same error) *)
+Theorem C13_readdirnames_of_readdir :
+  forall (St : Type) (inner : St -> op -> St * res) (m : str -> bool) s w h n,
+  In h w ->
+  fst (re_step inner m (s, w) (HReaddirnames h n)) = fst (re_step inner m (s, w) (HReaddir h n)) /\
+  snd (re_step inner m (s, w) (HReaddirnames h n)) =
+    match snd (re_step inner m (s, w) (HReaddir h n)) with RInfos l e => RNames (map fi_name l) e | r => r end.
+Proof. exact @re_step_readdirnames_of_readdir. Qed.
+Print Assumptions C13_readdirnames_of_readdir.
+
+(* the refill loop — GIVEN the fact about the source regexp_readdir_refills = 1 (Props/C13Wraps.v: by
+   reflexivity): for n > 0, a RegexpFile answers "no entries, no error" only when the inner directory's
+   own last page was empty (or re_fuel + 1 = 4097 pages in a row held nothing but hidden files: the
+   model's bound on the loop).  dropped_pages inner m h n s ps s1 := consecutive nil-error pages, each
+   filtered to nothing, from s to s1 *)
+Theorem C13_listing_refills :
+  forall (St : Type) (inner : St -> op -> St * res) (m : str -> bool) s w h n s' w',
+  regexp_readdir_refills = 1 -> In h w -> 0 < n ->
+  re_step inner m (s, w) (HReaddir h n) = ((s', w'), RInfos [] None) ->
+  exists ps s1 l, dropped_pages inner m h n s ps s1 /\ inner s1 (HReaddir h n) = (s', RInfos l None) /\
+    (l = [] \/ (length ps = re_fuel /\ filter_infos m l = [])).
+Proof. exact @re_step_listing_refills. Qed.
+Print Assumptions C13_listing_refills.
 
 (* 5. The property's restriction "decided by the final path element": then the listing filter
    (applied to entry names) and the gate (applied to whole names) agree on every entry n of every
@@ -172,6 +213,13 @@ Example C13_ex_openfile_leak : snd (run_steps (re_step_sw m_step (re_match 0) fa
 Proof. vm_compute. reflexivity. Qed.
 Example C13_ex_openfile_fixed : snd (run_steps (re_step_sw m_step (re_match 0) true) (c13_demo, [])
     [OpenFile [47]%N 0 0; HReaddirnames 2 (-1)]) = [RHandle 2; RNames [[97;46;116;120;116]; [99]]%N None].
+Proof. vm_compute. reflexivity. Qed.
+
+(* paging with n = 1 over /: a.txt, c, then the page holding the hidden x.dat is dropped and the next
+   read reports the end of the directory (before the fix: an empty page with a nil error) *)
+Example C13_ex_refill : snd (run_steps (re_step m_step (re_match 0)) (c13_demo, [])
+    [Open [47]%N; HReaddirnames 2 1; HReaddirnames 2 1; HReaddirnames 2 1])
+  = [RHandle 2; RNames [[97;46;116;120;116]]%N None; RNames [[99]]%N None; RNames [] (Some (E KEOF))].
 Proof. vm_compute. reflexivity. Qed.
 
 (* the three patterns on sample names *)
